@@ -247,6 +247,17 @@ def alphabet():
     ops.append(Op("B:encode(Payload(7),'Payload')", "refs", "encode", lambda x: b["call1"](typelib.encode, x, t="Payload"), lambda: b["Payload"](7)))
     ops.append(Op("A:decode('Payload',b'x')", "refs", "decode", lambda x: a["call1"](typelib.decode, "Payload", x), lambda: b"x"))
     ops.append(Op("B:decode('Payload',json)", "refs", "decode", lambda x: b["call1"](typelib.decode, "Payload", x), lambda: b'{"n": "7"}'))
+    # (w10) bare `list` / `dict[str, list]` targets of marshal (the output never IS the input), one text tried against two temporal types
+    # (the first rejects it), the X | None spelling next to Optional[X]
+    ma("m([1,2],list)", "json", list, lambda: [1, 2])
+    ma("m({'k':[1]},dict[str,list])", "json", lambda: dict[str, list], lambda: {"k": [1]})
+    um("u(timedelta,'2021-03-04')", "temporal", datetime.timedelta, lambda: "2021-03-04")
+    um("u(date,'2021-03-04')", "temporal", datetime.date, lambda: "2021-03-04")
+    um("u(date|timedelta,'P1DT2H')", "temporal", lambda: U[datetime.date, datetime.timedelta], lambda: "P1DT2H")
+    um("u(timedelta,'P1DT2H')", "temporal", datetime.timedelta, lambda: "P1DT2H")
+    um("u(str|None,None)", "union1", lambda: str | None, lambda: None)
+    um("u(bool|None,None)", "union1", lambda: bool | None, lambda: None)
+    um("u(Optional[bool],None)", "union1", lambda: typing.Optional[bool], lambda: None)
     ops.append(Op("build-codec(list[int])", "json", "build", lambda x: type(typelib.codec(list[int])).__name__, lambda: None))
     ops.append(Op("ENV:mutate-results", "env", "env", None))
     ops.append(Op("ENV:mutate-inputs", "env", "env", None))
@@ -339,6 +350,7 @@ def run_history(seq, res, judge_from=0):
         precompute_cold()  # never clear caches in the middle of a history
     cold.clear_all()
     results, inputs_, faults = [], [], []
+    marshalled = []  # (position, result) of the marshal operations
     for pos, i in enumerate(seq):
         op = ops[i]
         if op.kind == "env":
@@ -346,8 +358,14 @@ def run_history(seq, res, judge_from=0):
                 for r in results:
                     deep_mutate(r)
             elif op.name == "ENV:mutate-inputs":
+                # what a marshal call returned is settled: mutating the value it was given afterwards does not reach it
+                before = [(j, json.dumps(canon(r), default=repr)) for j, r in marshalled]
                 for _, x in inputs_:
                     deep_mutate(x)
+                for (j, snap0), (_, r) in zip(before, marshalled):
+                    if pos >= judge_from and json.dumps(canon(r), default=repr) != snap0:
+                        faults.append((pos, "result-changed-by-input-mutation", f"the result of {ops[seq[j]].name} (position {j}) changed when the input of that call was mutated afterwards"))
+                        break
             else:
                 cold.clear_all()
             continue
@@ -375,6 +393,8 @@ def run_history(seq, res, judge_from=0):
                         break
         if o.ok:
             results.append(o.val)
+            if op.kind == "marshal":
+                marshalled.append((pos, o.val))
         inputs_.append((pos, x))
     return faults
 
